@@ -19,21 +19,21 @@ LEVEL_NOTE = 'Trusted: numpy, numba, references, digest-based state merging. Bou
 DESIGN_REF = 'DESIGN.md section 3, C16'
 
 MENU = {
-    'cpa': ('rows', 'rows_less', 'len', 'len_less', 'words', 'type_traces', 'type_data', 'memory'),
+    'cpa': ('traces_str', 'rows', 'rows_less', 'len', 'len_less', 'words', 'type_traces', 'type_data', 'memory'),
     'cpa_alt': ('rows', 'len', 'words', 'type_traces', 'type_data'),
-    'dpa': ('rows', 'len', 'len_less', 'words', 'type_traces', 'type_data', 'dparange', 'dpafloat', 'dtype', 'memory'),
-    'anova': ('rows', 'rows_less', 'len', 'len_less', 'words', 'type_traces', 'type_data', 'dtype', 'dtype64', 'memory'),
+    'dpa': ('traces_str', 'rows', 'len', 'len_less', 'words', 'type_traces', 'type_data', 'dparange', 'dpafloat', 'dtype', 'memory'),
+    'anova': ('traces_str', 'rows', 'rows_less', 'len', 'len_less', 'words', 'type_traces', 'type_data', 'dtype', 'dtype64', 'memory'),
     'nicv': ('rows', 'len', 'words', 'type_data', 'dtype'),
     'snr': ('rows', 'len', 'words', 'type_traces', 'dtype64'),
-    'mia': ('rows', 'len', 'len_less', 'words', 'type_traces', 'type_data', 'dtype', 'dtype64', 'memory'),
-    'tplbuild': ('rows', 'len', 'len_less', 'type_traces', 'type_data', 'tplwords', 'dtype', 'memory'),
-    'tplstatic': ('rows', 'len', 'len_less', 'type_traces', 'type_data'),
-    'tpldpa': ('rows', 'len', 'type_traces', 'type_data', 'tplundeclared'),
+    'mia': ('traces_str', 'rows', 'len', 'len_less', 'words', 'type_traces', 'type_data', 'dtype', 'dtype64', 'memory'),
+    'tplbuild': ('traces_str', 'rows', 'len', 'len_less', 'type_traces', 'type_data', 'tplwords', 'dtype', 'memory'),
+    'tplstatic': ('traces_str', 'rows', 'len', 'len_less', 'type_traces', 'type_data'),
+    'tpldpa': ('rows', 'len', 'type_traces', 'type_data', 'tplundeclared', 'tplundeclared_last'),
     'tplstatic0': ('rows', 'type_traces'),
     'tpldpa0': ('rows', 'type_data'),
     'ttacc': ('type_traces',),
 }
-AUTO_MENU = ('rows', 'len', 'words', 'autorange', 'autoneg', 'dtype')
+AUTO_MENU = ('rows', 'len', 'words', 'autorange', 'autoneg', 'dtype', 'dtype_small', 'dtype64_small', 'memory')
 
 
 def bound(tier):
